@@ -54,12 +54,17 @@ def _empty_like(v):
     return '' if isinstance(v, str) else False if isinstance(v, bool) else 0
 
 
+def _logic_key(v):
+    type_id = _get_type_id(v)
+    return type_id, v.upper() if type_id == 1 else v
+
+
 def logic_input_parser(x, y):
     if x is sh.EMPTY:
         x = _empty_like(y)
     if y is sh.EMPTY:
         y = _empty_like(x)
-    return (_get_type_id(x), x), (_get_type_id(y), y)
+    return _logic_key(x), _logic_key(y)
 
 
 logic_wrap = functools.partial(
